@@ -20,7 +20,8 @@ def _sends(lst):
     out = []
     for j, s in enumerate(lst or []):
         kind = s.get('kind', 'send')
-        args = ['%r' % s['name'], 'uid=v*10+%d' % j]
+        base = s.get('uid_base', 0)
+        args = ['%r' % s['name'], ('uid=%d+v*10+%d' % (base, j)) if base else 'uid=v*10+%d' % j]
         if s.get('delay') is not None:
             args.append('delay=%r' % s['delay'])
         for k, val in sorted((s.get('params') or {}).items()):
